@@ -178,7 +178,8 @@ def env():
     import pathlib
     import time
     import math
-    return {'ppv': ppv, 'pytz': pytz, 'datetime': datetime, 'collections': collections, 'types': types,
+    import os
+    return {'os': os, 'ppv': ppv, 'pytz': pytz, 'datetime': datetime, 'collections': collections, 'types': types,
             'uuid': uuid, 'functools': functools, 'pathlib': pathlib, 'time': time, 'math': math,
             'mappingproxy': types.MappingProxyType}
 
